@@ -136,7 +136,7 @@ spec fn text_post<'i>(pre: ReaderState, rem0: Seq<u8>, m: ReaderState, rem2: Seq
 
 /// what the selected arm of the state machine does (before the final Done bookkeeping)
 #[verifier::opaque]
-spec fn arm_post<'i>(pre: ReaderState, rem: Seq<u8>, m: ReaderState, rem2: Seq<u8>, r: core::result::Result<Event<'i>, Error>, fault: bool) -> bool {
+spec fn arm_post<'i>(pre: ReaderState, rem: Seq<u8>, brem: Seq<u8>, m: ReaderState, rem2: Seq<u8>, r: core::result::Result<Event<'i>, Error>, fault: bool) -> bool {
     match pre.state {
         ParseState::Done => !fault && m == pre && rem2 == rem && (r matches Ok(Event::Eof)),
         ParseState::InsideEmpty => {
@@ -149,8 +149,8 @@ spec fn arm_post<'i>(pre: ReaderState, rem: Seq<u8>, m: ReaderState, rem2: Seq<u
         ParseState::InsideText => text_post(pre, rem, m, rem2, r, fault),
         ParseState::Init => {
             let p1 = ReaderState { state: ParseState::InsideText, ..pre };
-            // the byte-order-mark sniff may see only the first piece of the input (C02)
-            text_post(p1, rem, m, rem2, r, fault) || text_post(p1, strip_bom(rem), m, rem2, r, fault)
+            // `brem`: the input after the byte-order-mark sniff (which sees the first piece only, C02; a slice is one piece)
+            text_post(p1, brem, m, rem2, r, fault)
         },
     }
 }
@@ -162,9 +162,9 @@ spec fn finish<'i>(m: ReaderState, r: core::result::Result<Event<'i>, Error>) ->
 }
 /// THE contract of one read-event call (T01)
 #[verifier::opaque]
-spec fn event_post<'i>(pre: ReaderState, rem: Seq<u8>, post: ReaderState, rem2: Seq<u8>, r: core::result::Result<Event<'i>, Error>, fault: bool) -> bool {
+spec fn event_post<'i>(pre: ReaderState, rem: Seq<u8>, brem: Seq<u8>, post: ReaderState, rem2: Seq<u8>, r: core::result::Result<Event<'i>, Error>, fault: bool) -> bool {
     ||| io_fail(pre, rem, post, r, fault)
-    ||| exists|m: ReaderState| #[trigger] arm_post(pre, rem, m, rem2, r, fault) && post == finish(m, r)
+    ||| exists|m: ReaderState| #[trigger] arm_post(pre, rem, brem, m, rem2, r, fault) && post == finish(m, r)
 }
 
 impl<R> Reader<R> {
